@@ -65,7 +65,87 @@ fn c01_elem(rng: &mut Rng, uniq: &mut u32) -> Elem {
             payload: B(vec![0xff, 0xfe, b'a', 0x80]),
             pad: 0,
         },
+        8 => {
+            // over-long tokens (length counters): character data, suffix, digits, string
+            let n = *rng.pick(&[13usize, 14, 100, 255, 256, 257, 300, 1000]);
+            match rng.below(5) {
+                0 => Elem::Raw(B(vec![b'A'; n])),
+                1 => {
+                    let mut v = b"1 ".to_vec();
+                    v.extend(std::iter::repeat(b'V').take(n));
+                    Elem::Raw(B(v))
+                }
+                2 => Elem::Raw(B(vec![b'7'; n])),
+                3 => {
+                    let mut v = b"1E".to_vec();
+                    v.extend(std::iter::repeat(b'9').take(n));
+                    Elem::Raw(B(v))
+                }
+                _ => Elem::Str {
+                    q: '"',
+                    inner: B(vec![b'x'; n]),
+                },
+            }
+        }
         _ => gen_elem(rng, uniq, false),
+    }
+}
+
+/// grammar-generated multi-unit message whose handlers pull through typed conversions
+pub fn hostile_msg(rng: &mut Rng, tc: &TreeCtx, uniq: &mut u32) -> Msg {
+    let k = *rng.pick(&[1usize, 1, 2, 3, 5, 8]);
+    let k = rng.urange(1, k);
+    let mut units = Vec::new();
+    let mut level: Vec<usize> = Vec::new();
+    for i in 0..k {
+        let leaf = pick_sim_leaf(rng, &tc).unwrap().clone();
+        let (colon, mut path) = spell_header(rng, tc, &leaf, &level, i == 0, 50);
+        if rng.chance(1, 40) {
+            let n = *rng.pick(&[13usize, 100, 255, 256, 300]);
+            let k = rng.usize_below(path.len());
+            path[k] = "M".repeat(n);
+        }
+        let np = rng.usize_below(7);
+        let params: Vec<Elem> = (0..np).map(|_| c01_elem(rng, uniq)).collect();
+        let psep: Vec<B> = (1..np).map(|_| gen_psep(rng)).collect();
+        let m = rng.usize_below(np + 3);
+        let pulls: Vec<Pull> = (0..m)
+            .map(|_| Pull {
+                req: rng.chance(1, 2),
+                ty: if rng.chance(1, 8) { PullTy::Tok } else { *rng.pick(ALL_PULL_TYPES) },
+            })
+            .collect();
+        let query = rng.chance(1, 3);
+        let mut plan = Plan {
+            pulls,
+            ..Default::default()
+        };
+        if query {
+            let (hdr, data) = gen_response_plan(rng, uniq, 2);
+            plan.hdr = hdr;
+            plan.data = data;
+        }
+        let u = Unit {
+            lead: if i > 0 { gen_ws(rng, true) } else { B::new() },
+            colon,
+            path,
+            query,
+            hfault: None,
+            hsep: if np > 0 { gen_ws(rng, false) } else { gen_ws(rng, true) },
+            params,
+            psep,
+            tail: if np > 0 { gen_ws(rng, true) } else { B::new() },
+            pfault: None,
+            plan,
+        };
+        if let Some(l) = level_after(tc, &level, i == 0, u.colon, &u.path) {
+            level = l;
+        }
+        units.push(u);
+    }
+    Msg {
+        units,
+        end: B::from(*rng.pick(&["", "\n", " ", ";", "\r\n"])),
     }
 }
 
@@ -106,6 +186,7 @@ impl Prop for C01 {
             "garbage",
             "typed_pull_conversion_error",
             "list_iterated",
+            "token_of_256_or_more_characters",
         ];
         v.into_iter().map(String::from).collect()
     }
@@ -132,59 +213,8 @@ impl Prop for C01 {
         }
         let nmsg = rng.urange(1, 6);
         let mut uniq = 0u32;
-        let mk_msg = |rng: &mut Rng, uniq: &mut u32| -> Msg {
-            let k = *rng.pick(&[1usize, 1, 2, 3, 5, 8]);
-            let k = rng.urange(1, k);
-            let mut units = Vec::new();
-            let mut level: Vec<usize> = Vec::new();
-            for i in 0..k {
-                let leaf = pick_sim_leaf(rng, &tc).unwrap().clone();
-                let (colon, path) = spell_header(rng, &tc, &leaf, &level, i == 0, 50);
-                let np = rng.usize_below(7);
-                let params: Vec<Elem> = (0..np).map(|_| c01_elem(rng, uniq)).collect();
-                let psep: Vec<B> = (1..np).map(|_| gen_psep(rng)).collect();
-                let m = rng.usize_below(np + 3);
-                let pulls: Vec<Pull> = (0..m)
-                    .map(|_| Pull {
-                        req: rng.chance(1, 2),
-                        ty: if rng.chance(1, 8) { PullTy::Tok } else { *rng.pick(ALL_PULL_TYPES) },
-                    })
-                    .collect();
-                let query = rng.chance(1, 3);
-                let mut plan = Plan {
-                    pulls,
-                    ..Default::default()
-                };
-                if query {
-                    let (hdr, data) = gen_response_plan(rng, uniq, 2);
-                    plan.hdr = hdr;
-                    plan.data = data;
-                }
-                let u = Unit {
-                    lead: if i > 0 { gen_ws(rng, true) } else { B::new() },
-                    colon,
-                    path,
-                    query,
-                    hfault: None,
-                    hsep: if np > 0 { gen_ws(rng, false) } else { gen_ws(rng, true) },
-                    params,
-                    psep,
-                    tail: if np > 0 { gen_ws(rng, true) } else { B::new() },
-                    pfault: None,
-                    plan,
-                };
-                if let Some(l) = level_after(&tc, &level, i == 0, u.colon, &u.path) {
-                    level = l;
-                }
-                units.push(u);
-            }
-            Msg {
-                units,
-                end: B::from(*rng.pick(&["", "\n", " ", ";", "\r\n"])),
-            }
-        };
         for _ in 0..nmsg {
-            let msg = mk_msg(&mut rng, &mut uniq);
+            let msg = hostile_msg(&mut rng, &tc, &mut uniq);
             let bytes = render(&msg);
             let corrupt = match rng.below(10) {
                 0 | 1 => vec![],
@@ -193,7 +223,7 @@ impl Prop for C01 {
                     gen_corruption(&mut rng, &bytes, n, None)
                 }
                 7 | 8 => {
-                    let other = render(&mk_msg(&mut rng, &mut uniq));
+                    let other = render(&hostile_msg(&mut rng, &tc, &mut uniq));
                     let mut c = vec![Corrupt::Splice { tail: B(other) }];
                     if rng.chance(1, 3) {
                         c.extend(gen_corruption(&mut rng, &bytes, 1, None));
@@ -289,6 +319,20 @@ impl Prop for C01 {
                         -112 | -144 | -134 => stats.probe("mnemonic_13_or_more"),
                         -101 => stats.probe("non_ascii_byte"),
                         _ => {}
+                    }
+                }
+                {
+                    let mut runlen = 0usize;
+                    for c in b.iter() {
+                        if c.is_ascii_alphanumeric() {
+                            runlen += 1;
+                            if runlen >= 256 {
+                                stats.probe("token_of_256_or_more_characters");
+                                break;
+                            }
+                        } else {
+                            runlen = 0;
+                        }
                     }
                 }
                 if b.last() == Some(&b'#') {
